@@ -64,9 +64,13 @@ Definition obs' (T : tables) (s : state) (a : nat) (s' : state) : list hevent :=
     end
   end.
 
+(* the observer: the events performed when actor [a] moves in state [s] (none if it cannot move) *)
+Definition obs (T : tables) (F : facts) (s : state) (a : nat) : list hevent :=
+  match step T F s a with Some s' => obs' T s a s' | None => [] end.
+
 (* the product of the model with its history; the first component is exactly [step] *)
 Definition steph (T : tables) (F : facts) (sh : state * list hevent) (a : nat) : option (state * list hevent) :=
-  s' ← step T F sh.1 a; Some (s', sh.2 ++ obs' T sh.1 a s').
+  s' ← step T F sh.1 a; Some (s', sh.2 ++ obs T F sh.1 a).
 Definition runh (T : tables) (F : facts) (sh : state * list hevent) (tr : list nat) : option (state * list hevent) :=
   foldl (fun o a => x ← o; steph T F x a) (Some sh) tr.
 (* the history of the run of [tr] from [s] (in chronological order) *)
